@@ -243,6 +243,54 @@ def run_case(case, scenarios, full=False):
     return res
 
 
+def audit_frames(case, frames):
+    """one more real run on a machine whose run callbacks are wrapped: every attribute listed by the translator is
+    digested before and after each callback; what changed must be inside (may-assign + read) of the generated frame"""
+    import pandora
+    from pandora.state_machine import PandoraMachine
+
+    L, R = make_inputs(case)
+    m = PandoraMachine()
+    attrs = frames["attrs"]
+    bad = []
+    n_cb = [0]
+    for cb, fr in frames["callbacks"].items():
+        orig = getattr(m, cb)
+
+        def wrapper(cfg, input_step, _orig=orig, _cb=cb, _fr=fr):
+            before = {a: digest(getattr(m, a, None)) for a in attrs}
+            rdm = m.right_disp_map == "cross_checking_accurate"
+            out = _orig(cfg, input_step)
+            n_cb[0] += 1
+            allowed = set(_fr[str(rdm)]["may"]) | set(_fr[str(rdm)]["reads"])
+            changed = [a for a in attrs if digest(getattr(m, a, None)) != before[a]]
+            extra = [a for a in changed if a not in allowed]
+            if extra:
+                bad.append({"callback": _cb, "step": input_step, "rdm": rdm, "changed_outside_frame": extra})
+            return out
+
+        setattr(m, cb, wrapper)
+    orig_prep = m.run_prepare
+
+    def prep_wrapper(cfg, left, right, scale_factor=None, num_scales=None, _orig=orig_prep):
+        before = {a: digest(getattr(m, a, None)) for a in attrs}
+        out = _orig(cfg, left, right, scale_factor, num_scales)
+        multi = m.num_scales > 1
+        fr = frames["prepare"][str(multi)]
+        # add_transitions touches no listed attribute; everything that changed must be in may-assign
+        extra = [a for a in attrs if digest(getattr(m, a, None)) != before[a] and a not in fr["may"]]
+        if extra:
+            bad.append({"callback": "run_prepare", "changed_outside_frame": extra})
+        return out
+
+    m.run_prepare = prep_wrapper
+    try:
+        pandora.run(m, L, R, copy.deepcopy(case["cfg"]))
+    except Exception as exc:  # pylint: disable=broad-except
+        return {"error": type(exc).__name__ + ": " + str(exc)[:160]}
+    return {"callbacks_audited": n_cb[0], "bad": bad}
+
+
 def kernel_cases(case):
     """the parallel kernels that pandora.run does not reach (sampled variants, approximate refinement):
     called directly (compiled static methods) on a cost volume produced by the real matching cost"""
@@ -343,6 +391,8 @@ def main():
         for case in spec["cases"]:
             r = run_case(case, spec.get("scenarios", False) and case.get("scenarios", True), spec.get("full", False))
             r["threads_now"] = int(numba.get_num_threads())
+            if spec.get("frames") and spec.get("scenarios") and case.get("scenarios", True):
+                r["frame_audit"] = audit_frames(case, spec["frames"])
             if case.get("kernels"):
                 try:
                     r["kernels"] = kernel_cases(case)
